@@ -1,6 +1,8 @@
 CONSTANTS
-  MaxIn = 2
-  MaxOut = 2
+  NinSet <- SmallNin
+  NoutSet <- SmallNout
+  UnusedSets <- SmallUnused
+  ReqFilter <- NoFilter
   NPass = 2
 SPECIFICATION Spec
 INVARIANT EmitEnd
